@@ -5,10 +5,13 @@ from .bddprops import ASSUMPTIONS
 
 BOUNDS = ('ADF families F(n,S,seed): n=2 with all statements symbolic (the complete space of 256 ADFs); n=3 with |S|=1 symbolic statement '
           '(256 functions) in concrete contexts drawn from VERIF_SEED; thorough adds n=3 |S|=2 (65 536 ADFs per family) and n=4 |S|=1 (not for complete models). '
-          'Diagrams are built through the real Bdd::node (Shannon expansion); MIR step fuel per path as configured.')
-OUTSIDE = ('symbolic engine: n=3 with all statements symbolic (16.7M ADFs) and larger, and the biodivine library internals. The biodivine / hybrid back-ends and '
-           'the rewriting variants are covered by the second engine (z3 judging the real binary\'s answers on concrete texts, see coverage.backend_*), '
-           'which validates individual instances, not all inputs; text syntax is C08/C09')
+          'Diagrams are built through the real Bdd::node (Shannon expansion); MIR step fuel per path as configured. Procedures named bio/<p> run on adfbiodivine::Adf '
+          'whose conditions are the symbolic tables (values of the biodivine contract model), hyb/<p> and hybraw/<p> on the naive Adf delivered by the real '
+          'hybrid_step() / hybrid_step_opt(false) from it.')
+OUTSIDE = ('symbolic engine: n=3 with all statements symbolic (16.7M ADFs) and larger; the biodivine library internals (contract model: Boolean functions as truth tables, '
+           'its physical node layout only approximated); adfbiodivine::Adf::from_parser / the parser-based rewriting on symbolic input (they need a text). Those, and all '
+           'back-ends once more with the real biodivine library, are covered by the second engine (z3 judging the real binary\'s answers on concrete texts, see '
+           'coverage.backend_*), which validates individual instances, not all inputs; text syntax is C08/C09')
 
 def replay(ctx, v):
     if 'backend' in v:
@@ -31,6 +34,7 @@ def make(procs, canary_proc, backend_kinds=(), **kw):
         return {'jobs': semjobs.make_jobs(Job, procs, tier, seed, canary_proc, **kw), 'level': 'model_checking',
                 'extra': extra if backend_kinds else None,
                 'assumptions': ASSUMPTIONS + ['crossbeam unbounded channel = lossless FIFO with sender/receiver counts',
+                                              'biodivine_lib_bdd behaves as its contract model (mirse/models_bio.py): a Bdd is the Boolean function it denotes; answers of every bio/hyb procedure are compared with the real library on the validation instances of each run',
                                               'rand::StdRng: every draw is an unconstrained symbolic value (over-approximates all seeds)'],
                 'bounds': BOUNDS, 'outside': OUTSIDE, 'allowed_status': ('ok', 'panic', 'bound')}
     def validate(ctx, tier, seed): return semjobs.validate(ctx, tier, seed, procs)
